@@ -53,6 +53,18 @@ fn hostile_docs() -> Vec<Value> {
         deep = if i % 2 == 0 { json!([deep]) } else { json!({ "a": deep }) };
     }
     v.push(deep);
+    // numbers that are "equal" to their neighbours under a tolerant comparison but not to their
+    // neighbours' neighbours (a non-transitive ordering makes sorting code panic), in unlucky orders
+    for base in [0.3f64, 1e15, -2.5] {
+        let ks = [2u64, 2, 3, 3, 2, 1, 0, 3, 3, 0, 0, 2, 1, 0, 3, 1, 3, 1, 1, 3, 2, 4, 0, 5, 1, 4, 2, 5, 3, 0, 4, 1, 5, 2, 3, 4, 0, 5, 1, 2];
+        let xs: Vec<Value> = ks.iter().map(|k| json!(f64::from_bits((base.to_bits() as i64 + if base < 0.0 { -(*k as i64) } else { *k as i64 }) as u64))).collect();
+        v.push(Value::Array(xs.clone()));
+        v.push(Value::Array(xs.iter().enumerate().map(|(i, x)| json!({"k": x, "id": i})).collect()));
+    }
+    // integers from both ends of the 64-bit ranges side by side (no common machine type)
+    v.push(json!([[-9223372036854775808i64], 18446744073709551615u64]));
+    v.push(json!([-9223372036854775808i64, 18446744073709551615u64, -9007199254740993i64, 9223372036854775808u64, 9007199254740993u64, 0]));
+    v.push(json!({"k": [-9223372036854775807i64, 18446744073709551614u64], "a": -9223372036854775808i64, "b": 18446744073709551615u64}));
     v
 }
 
@@ -107,8 +119,12 @@ pub fn gen_case(rng: &mut Rng) -> (String, &'static str) {
         (char_soup(rng, 40), "char-soup")
     } else if fam < 92 {
         (numeric_edge(rng), "numeric-edge")
-    } else if fam < 96 {
+    } else if fam < 94 {
         (FIXED[rng.below(FIXED.len())].to_string(), "malformed-quoted-or-numeric")
+    } else if fam < 96 {
+        (refimpl::sentence::long_token_case(rng), "long-token")
+    } else if fam < 97 {
+        (refimpl::sentence::lookalike_case(rng), "unicode-lookalike")
     } else {
         // a moderately deep member of a depth family (shallow enough to be in scope)
         let f = DEPTH_FAMILIES[rng.below(DEPTH_FAMILIES.len())];
@@ -133,7 +149,7 @@ fn edge_case(idx: u64) -> (String, Value, Option<String>) {
     (expr, doc, a.map(|n| format!("@[{}]", n)))
 }
 
-const PATS: [&str; 14] = ["@", "@, @", "&@, @", "@, &@", "@[0]", "@[0], @[1]", "k", "`1e308`", "@, `1e308`", "", "@, @, @", "'s', @", "@, 's'", "&k, @"];
+const PATS: [&str; 18] = ["@", "@, @", "&@, @", "@, &@", "@[0]", "@[0], @[1]", "k", "`1e308`", "@, `1e308`", "", "@, @, @", "'s', @", "@, 's'", "&k, @", "@, &k", "a, b", "@[1], @[0]", "k, a"];
 
 const EDGE: [Option<i64>; 11] = [
     None,
@@ -157,7 +173,7 @@ pub fn run_one(args: &Args) {
         println!("{}", json!({"expression": "<the growth monitor's sweep over self-similar families>", "family": "growth-monitor", "depth_metric": 40, "bytes": 0}));
         if args.kv.get("run").map_or(false, |v| v == "1") {
             let mut rep = Report::new("C05");
-            growth_monitor(&mut rep);
+            growth_monitor(&mut rep, 40);
             println!("RETURNED violations={}", rep.violations_total);
         }
         return;
@@ -322,7 +338,7 @@ const GROWTH_FAMILIES: [&str; 12] = [
 /// parser's step counters (hooks) must grow linearly along a self-similar family. The sweep
 /// stops at the first level that exceeds the bound, so a doubling-per-level defect is
 /// reported after a few thousand steps instead of hanging the run.
-fn growth_monitor(rep: &mut Report) {
+fn growth_monitor(rep: &mut Report, max_level: usize) {
     let doc = rcvar_of(&json!(7));
     let mut check = |rep: &mut Report, fam: &str, what: &str, series: &[(usize, u64)], d: usize, steps: u64, text: &str| -> bool {
         if series.len() < 2 {
@@ -345,7 +361,7 @@ fn growth_monitor(rep: &mut Report) {
     for fam in GROWTH_FAMILIES.iter() {
         let mut interp: Vec<(usize, u64)> = vec![];
         let mut parse: Vec<(usize, u64)> = vec![];
-        for d in 1..=40usize {
+        for d in 1..=max_level {
             let text = growth_family(fam, d).expect("family");
             rep.evaluations += 1;
             jmespath::verif::reset();
@@ -421,7 +437,7 @@ pub fn run(args: &Args) {
     // (0) work grows with the expression, not exponentially in its nesting
     if args.shard == 0 && !skip.contains(&30_000_000_000) {
         mark("B", 30_000_000_000);
-        growth_monitor(&mut rep);
+        growth_monitor(&mut rep, if args.tier == "thorough" { 150 } else { 40 });
         mark("E", 30_000_000_000);
     }
     // (1) exhaustive numeric-edge slices: start/stop/step over the edge set x array lengths
